@@ -1,5 +1,6 @@
 """C01 - every generated model is stock-flow consistent in each currency.
 (also the shared model-level driver used by C04 and C07)"""
+import random
 from fractions import Fraction
 
 from vf import monitors
@@ -89,6 +90,9 @@ def solve_and_judge(case, which, in_situ=True):
         rec.count('models.judged.with_country_currency_member_overwritten_after_construction')
     if case.get('build_opts', {}).get('declare_first') and any(c.get('cap') for z in spec['zones'] for c in z['countries'] if c['role'] != 'central'):
         rec.count('models.judged.with_the_firm_declared_before_its_owners')
+    if spec['zones'][0]['kind'] == 'federation' and any(c.get('firm', {}).get('margin') and not c.get('cap') for c in spec['zones'][0]['countries'] if c['role'] == 'region') \
+            and any(c.get('cap') for c in spec['zones'][0]['countries'] if c['role'] == 'region'):
+        rec.count('models.judged.with_an_ownerless_profitable_firm_next_to_a_region_with_capitalists')
     if getattr(b, 'weights_shifted', 0):
         rec.count('models.judged.with_numeric_portfolio_weights_overridden_by_a_path')
     if getattr(b, 'lists_mutated', False):
@@ -133,6 +137,10 @@ def gen_case(rng, idx, tier, emphasis=None):
         spec = M.gen_spec(rng, n_zones=1)
         if idx % 16 == 8:
             M.force_share_portfolio_with_own_lag(rng, spec)
+    elif r == 2 and idx % 16 == 10 and M.gen_federation_with_an_ownerless_firm(random.Random(idx), maxtime=4) is not None:
+        # regions of one currency zone: capitalists and a profitable firm in one, a profitable firm WITHOUT owners in the others
+        # (it retains its profits: nobody in another region has a claim on them)
+        spec = M.gen_federation_with_an_ownerless_firm(rng, maxtime=rng.randint(3, 5)) or M.gen_spec(rng, n_zones=1)
     elif r == 2:
         # two zones trading with each other, built while unrelated Model() objects come and go
         spec = M.ensure_cross_import(rng, M.gen_spec(rng, n_zones=2, ext=True))
@@ -196,7 +204,8 @@ class C01(object):
                          'models.judged.with_households_buying_in_another_regions_market',
                          'retry_after_refusal.judged',
                          'models.judged.with_issuer_code_containing_a_holders_code',
-                         'models.judged.with_the_firm_declared_before_its_owners')
+                         'models.judged.with_the_firm_declared_before_its_owners',
+                         'models.judged.with_an_ownerless_profitable_firm_next_to_a_region_with_capitalists')
     which = ('zone', 'ledger')
 
     def n_cases(self, tier):
